@@ -209,30 +209,38 @@ def map_preimage(x, inv):
     raise HarnessError(f'map_preimage: unknown node {op}')
 
 
-_LOWER = None
+_CHARMAPS = {}
+
+
+def charmap_inverse(method):
+    """inverse image function for a per-character str method ('lower', 'upper', 'casefold'): returns
+    inv(ranges) = all x with len(getattr(x, method)()) == 1 and that image in ranges (the real method over all
+    code points).  Characters whose image has several characters (e.g. 'ß'.upper() == 'SS') are left out:
+    languages built with it under-approximate on strings containing such characters (validated on points)."""
+    if method not in _CHARMAPS:
+        moved = []
+        for cp in range(PYMAX + 1):
+            if 0xD800 <= cp <= 0xDFFF:
+                continue
+            img = getattr(chr(cp), method)()
+            if img != chr(cp):
+                moved.append((cp, img))
+        _CHARMAPS[method] = moved
+    moved = _CHARMAPS[method]
+
+    def inv(rs):
+        rs = strlang.rs_norm(list(rs))
+        out = list(rs_minus(tuple(rs), tuple(strlang.rs_norm([(c, c) for c, _ in moved]))))
+        for cp, img in moved:
+            if len(img) == 1 and strlang.rs_contains(rs, ord(img)):
+                out.append((cp, cp))
+        return strlang.rs_norm(out)
+    return inv
 
 
 def lower_inverse(rs):
     """All x with len(x.lower()) == 1 and x.lower() in rs (real str.lower over all code points)."""
-    global _LOWER
-    if _LOWER is None:
-        _LOWER = []
-        for cp in range(PYMAX + 1):
-            if 0xD800 <= cp <= 0xDFFF:
-                continue
-            lo = chr(cp).lower()
-            if lo != chr(cp):
-                _LOWER.append((cp, lo))
-    moved = {cp for cp, _ in _LOWER}
-    out = []
-    for lo, hi in rs:
-        out.append((lo, hi))
-    # characters that change under lower() are members only through their image
-    out = list(rs_minus(tuple(strlang.rs_norm(out)), tuple(strlang.rs_norm([(c, c) for c in moved]))))
-    for cp, l in _LOWER:
-        if len(l) == 1 and strlang.rs_contains(rs, ord(l)):
-            out.append((cp, cp))
-    return strlang.rs_norm(out)
+    return charmap_inverse('lower')(rs)
 
 
 # ---- lowering to z3 ----------------------------------------------------------------------------
